@@ -166,40 +166,86 @@ func runC02(c *Ctx) {
 // otherwise the minimum is wrong whenever localInitSeq+MaxTTL wraps around 2^32.
 func checkSackRelative(c *Ctx) {
 	R := c.R
-	f := c.P.Func("sack.getMinSack")
-	if f == nil {
-		R.Fail("R02.5", "sack.getMinSack#anchor", 0, "", "anchor sack.getMinSack no longer resolves")
+	var recvF *ssa.Function
+	for _, d := range Drivers(c.P) {
+		if d.Pkg == "sack" {
+			recvF = d.ReceiveProbe
+		}
+	}
+	if recvF == nil {
+		R.Fail("R02.5", "sack#anchor", 0, "", "the SACK driver's ReceiveProbe no longer resolves")
 		return
 	}
-	fn := core.FuncName(f)
+	// a raw SACK edge: a 32-bit big-endian read of TCP option data
+	raw := func(t *core.Term) bool {
+		return t.Has(func(z *core.Term) bool {
+			return z.Op == "call" && strings.HasSuffix(z.Name, "Uint32") && strings.Contains(z.String(), "OptionData")
+		})
+	}
+	// relative: every raw edge sits under a subtraction of a value that is not itself read from the options
+	relative := func(t *core.Term) bool {
+		if t.Op == "loopphi" || t.Op == "const" || !raw(t) {
+			return true
+		}
+		return t.Has(func(z *core.Term) bool {
+			return z.Op == "binop" && z.Name == "-" && raw(z.Args[0]) && !raw(z.Args[1]) && z.Args[1].Op != "const"
+		})
+	}
 	n := 0
-	for _, b := range f.Blocks {
-		iff, ok := b.Instrs[len(b.Instrs)-1].(*ssa.If)
-		if !ok {
+	for _, f := range ModReach(c.P, recvF) {
+		if core.ShortPkg(core.FuncPkg(f)) != "sack" {
 			continue
 		}
-		bo, ok := iff.Cond.(*ssa.BinOp)
-		if !ok {
-			continue
-		}
-		switch bo.Op.String() {
-		case "<", ">", "<=", ">=":
-		default:
-			continue
-		}
-		if bits, _ := core.IntBits(bo.X.Type()); bits != 32 {
-			continue
-		}
-		n++
-		for _, pa := range firstPath(f, b) {
-			env := core.NewEnv(c.P, pa)
-			x, y := env.Term(bo.X), env.Term(bo.Y)
-			rel := func(t *core.Term) bool {
-				return t.Op == "loopphi" || t.Op == "const" || t.Has(func(z *core.Term) bool {
-					return z.Op == "binop" && z.Name == "-" && z.Args[1].String() == "param:localInitSeq"
-				})
+		fn := core.FuncName(f)
+		for _, b := range f.Blocks {
+			for _, in := range b.Instrs {
+				var ops []ssa.Value
+				what := ""
+				switch x := in.(type) {
+				case *ssa.BinOp:
+					switch x.Op.String() {
+					case "<", ">", "<=", ">=":
+						ops, what = []ssa.Value{x.X, x.Y}, x.Op.String()
+					}
+				case *ssa.Call:
+					if bi, ok := x.Common().Value.(*ssa.Builtin); ok && (bi.Name() == "min" || bi.Name() == "max") {
+						ops, what = x.Common().Args, bi.Name()
+					}
+				}
+				if len(ops) == 0 {
+					continue
+				}
+				if bits, _ := core.IntBits(ops[0].Type()); bits != 32 {
+					continue
+				}
+				for _, pa := range firstPath(f, b) {
+					env := core.NewEnv(c.P, pa)
+					var ts []*core.Term
+					anyRaw, allRel := false, true
+					for _, o := range ops {
+						t := env.Term(o)
+						ts = append(ts, t)
+						if raw(t) {
+							anyRaw = true
+						}
+						if !relative(t) {
+							allRel = false
+						}
+					}
+					if !anyRaw {
+						continue
+					}
+					n++
+					desc := ""
+					for i, t := range ts {
+						if i > 0 {
+							desc += " " + what + " "
+						}
+						desc += t.String()
+					}
+					R.Check(allRel, "R02.5", fmt.Sprintf("%s#ordered-compare@b%d", fn, b.Index), in.Pos(), fn, "sequence numbers are ordered relative to the initial sequence number", "SACK edges are ordered as absolute 32-bit sequence numbers ("+desc+"): the minimum is wrong when the probe sequence numbers wrap around 2^32")
+				}
 			}
-			R.Check(rel(x) && rel(y), "R02.5", fmt.Sprintf("%s#ordered-compare@b%d", fn, b.Index), bo.Pos(), fn, "sequence numbers are compared relative to the initial sequence number", "SACK edges are ordered as absolute 32-bit sequence numbers ("+x.String()+" "+bo.Op.String()+" "+y.String()+"): the minimum is wrong when the probe sequence numbers wrap around 2^32")
 		}
 	}
 	R.Floor("R02.5:ordered-comparisons", n, 1)
@@ -314,9 +360,15 @@ func checkBudget(c *Ctx) {
 		}
 	}
 	R.Floor("R02.4:WithTimeout", found, 1)
-	// receiver closure: the anonymous function that calls ReceiveProbe
+	// the receiver: whichever function of the engine's scope calls ReceiveProbe (a closure of the engine or a helper it was moved to)
 	nrecv := 0
-	for _, af := range f.AnonFuncs {
+	var scope []*ssa.Function
+	for _, e := range Engines(c.P) {
+		if e.Fn == f {
+			scope = e.Scope
+		}
+	}
+	for _, af := range scope {
 		var recvCall ssa.Instruction
 		for _, b := range af.Blocks {
 			for _, in := range b.Instrs {
@@ -338,7 +390,7 @@ func checkBudget(c *Ctx) {
 					continue
 				}
 				nerr++
-				def := c.P.Def(ci.Common().Value)
+				def := c.P.DefX(ci.Common().Value)
 				okCtx := false
 				desc := fmt.Sprintf("%T", def)
 				if ex, ok := def.(*ssa.Extract); ok {
